@@ -3,5 +3,6 @@ CONSTANTS
   MaxLen = 3
   Tok = {"+","-","*","/","%","@","=","^",".undef","$T0","$eip","$esp","$ebp","$ebx","$edi",".raSearch",".raSearchStart",".cbLocals",".cbParams",".cbCalleeParams","l4","lm1","l8","=l4","$nope","lbig","junk"}
   InstIds = {"normal","noebx","grand","espwrap","bigloc","ebpwrap","lowesp"}
+  Prefixes <- PrefixesNone
 INVARIANTS TypeOK OnlyOuts NoImplicit Emit
 CHECK_DEADLOCK FALSE
